@@ -4,9 +4,21 @@ package vtrace
 import (
 	"bufio"
 	"encoding/json"
+	"fmt"
 	"os"
+	"strconv"
 	"sync"
 )
+
+// capBytes bounds one trace file (VERIF_TRACE_CAP_MB, default 768): a driver that runs away (a loop in the code
+// under test that keeps producing events) must not fill the disk; it stops with exit status 3, which the check
+// reports as an infrastructure error, never as a verdict.
+var capBytes = func() int64 {
+	if v, err := strconv.Atoi(os.Getenv("VERIF_TRACE_CAP_MB")); err == nil && v > 0 {
+		return int64(v) << 20
+	}
+	return 768 << 20
+}()
 
 // Rec is one event; keys become fields of the TLA+ record.
 type Rec map[string]interface{}
@@ -16,6 +28,7 @@ type Writer struct {
 	f  *os.File
 	w  *bufio.Writer
 	n  int
+	sz int64
 }
 
 func Create(path string) (*Writer, error) {
@@ -46,6 +59,12 @@ func (t *Writer) Emit(ev string, r Rec) {
 	t.w.Write(b)
 	t.w.WriteByte('\n')
 	t.n++
+	t.sz += int64(len(b)) + 1
+	if t.sz > capBytes {
+		t.w.Flush()
+		fmt.Fprintf(os.Stderr, "vtrace: trace file %s exceeds %d MiB after %d events: giving up\n", t.f.Name(), capBytes>>20, t.n)
+		os.Exit(3)
+	}
 	t.mu.Unlock()
 }
 
